@@ -122,6 +122,7 @@ func genLegacyLoad(t *rapid.T, c *Case) {
 
 func forceLegacy(t *rapid.T, c *Case) {
 	layout := rapid.SampledFrom(legacyLayouts).Draw(t, "layout")
+	c.Over = rapid.IntRange(0, 2).Draw(t, "over") == 0
 	if c.spec().width == 0 {
 		c.Enc = "I32"
 		if c.HasVals {
